@@ -33,6 +33,9 @@ pub enum ColModel {
 pub struct Model {
 	pub specs: Vec<ColSpec>,
 	pub cols: Vec<ColModel>,
+	/// trees whose reader lock is held: their removal is postponed until the lock is released (C11)
+	pub locked: std::collections::BTreeSet<(u8, Vec<u8>)>,
+	pub postponed: Vec<(u8, Vec<u8>)>,
 }
 
 impl TreeModel {
@@ -84,6 +87,19 @@ impl TreeModel {
 		}
 	}
 
+	/// lower the root's count; at zero remove it and everything no longer reachable
+	pub fn remove_root(&mut self, k: &[u8]) {
+		if let Some(r) = self.roots.get_mut(k) {
+			r.2 -= 1;
+			if r.2 == 0 {
+				let (_, children, _) = self.roots.remove(k).unwrap();
+				for c in children {
+					self.deref_node(c);
+				}
+			}
+		}
+	}
+
 	pub fn total_entries(&self) -> u64 {
 		(self.roots.len() + self.nodes.len()) as u64
 	}
@@ -102,6 +118,31 @@ impl Model {
 					Kind::Tree => ColModel::Tree(TreeModel { next_id: 1, ..Default::default() }),
 				})
 				.collect(),
+			locked: Default::default(),
+			postponed: vec![],
+		}
+	}
+
+	pub fn lock(&mut self, c: u8, k: &[u8]) {
+		self.locked.insert((c, k.to_vec()));
+	}
+
+	/// Release the lock: postponed removals of that tree complete.
+	pub fn unlock(&mut self, c: u8, k: &[u8]) {
+		self.locked.remove(&(c, k.to_vec()));
+		let (now, later): (Vec<_>, Vec<_>) = std::mem::take(&mut self.postponed).into_iter().partition(|(pc, pk)| *pc == c && pk == k);
+		self.postponed = later;
+		for (pc, pk) in now {
+			if let ColModel::Tree(t) = &mut self.cols[pc as usize] {
+				t.remove_root(&pk);
+			}
+		}
+	}
+
+	pub fn unlock_all(&mut self) {
+		let l: Vec<_> = self.locked.iter().cloned().collect();
+		for (c, k) in l {
+			self.unlock(c, &k);
 		}
 	}
 
@@ -213,14 +254,11 @@ impl Model {
 						},
 					Op::DerefTree(k) => {
 						let k = k.bytes();
-						if let Some(r) = t.roots.get_mut(&k) {
-							r.2 -= 1;
-							if r.2 == 0 {
-								let (_, children, _) = t.roots.remove(&k).unwrap();
-								for c in children {
-									t.deref_node(c);
-								}
-							}
+						if next.locked.contains(&(*c, k.clone())) && t.roots.get(&k).map_or(false, |r| r.2 == 1) {
+							// the tree's reader lock is held: the removal waits for its release
+							next.postponed.push((*c, k));
+						} else {
+							t.remove_root(&k);
 						}
 					},
 					_ => unreachable!(),
@@ -235,6 +273,8 @@ impl Model {
 		use std::hash::{Hash, Hasher};
 		let mut h = std::collections::hash_map::DefaultHasher::new();
 		self.cols.hash(&mut h);
+		self.locked.hash(&mut h);
+		self.postponed.hash(&mut h);
 		h.finish()
 	}
 }
